@@ -14,6 +14,12 @@ def _norm(e):
         return 'const:%r' % (int(e.args[0].value) if e.func.id == 'int' else float(e.args[0].value),)
     if isinstance(e, ast.Constant) and isinstance(e.value, (int, float)) and not isinstance(e.value, bool):
         return 'const:%r' % (e.value,)
+    # the spellings of an infinity
+    src = ast.unparse(e).replace('"', "'").replace(' ', '')
+    if src in ("float('inf')", "math.inf", "float('+inf')", "float('infinity')"):
+        return 'const:inf'
+    if src in ("-float('inf')", "float('-inf')", "-math.inf", "-float('infinity')"):
+        return 'const:-inf'
     return ast.dump(e, annotate_fields=False, include_attributes=False)
 
 
@@ -77,6 +83,20 @@ def _refills(reset_node):
     """loops ``for _ in range(M): <loc>.append(const)`` in reset -> {loc: M expr}"""
     out = {}
     for st in reset_node.body:
+        # <loc>.extend([const] * M)  /  <loc>.extend(const for _ in range(M))
+        if isinstance(st, ast.Expr) and isinstance(st.value, ast.Call) and isinstance(st.value.func, ast.Attribute) and st.value.func.attr == 'extend' \
+                and len(st.value.args) == 1 and not st.value.keywords:
+            loc = E.self_loc(st.value.func.value)
+            a = st.value.args[0]
+            if loc is not None and isinstance(a, ast.BinOp) and isinstance(a.op, ast.Mult):
+                for lst, cnt in ((a.left, a.right), (a.right, a.left)):
+                    if isinstance(lst, ast.List) and len(lst.elts) == 1 and _is_constant_expr(lst.elts[0], set()):
+                        out[loc] = cnt
+            elif loc is not None and isinstance(a, (ast.GeneratorExp, ast.ListComp)) and len(a.generators) == 1 and not a.generators[0].ifs \
+                    and _is_constant_expr(a.elt, set()):
+                it = a.generators[0].iter
+                if isinstance(it, ast.Call) and getattr(it.func, 'id', None) == 'range' and len(it.args) == 1:
+                    out[loc] = it.args[0]
         if isinstance(st, ast.For) and isinstance(st.iter, ast.Call) and getattr(st.iter.func, 'id', None) == 'range' and len(st.iter.args) == 1:
             consts = set()
             for s in st.body:
@@ -156,7 +176,10 @@ def operation_state(ix, rep, cls, rule='R-STATE', interp_rebuilds=False):
         if loc in assigns or attr in assigns:
             key = loc if loc in assigns else attr
             init = table.get(key)
-            if init is None:
+            if init is None and init_calls_reset:
+                # the constructor obtains the initial value from reset() itself: fresh and reset state are the same assignment
+                idiom.append('I2')
+            elif init is None:
                 rep.fail(rule, file, cls.name, 'I2:' + loc, 'reset() assigns self.%s but __init__ does not define its initial value' % key, rs.node.lineno)
                 ok_all = False
             elif _norm(init) != _norm(assigns[key]):
